@@ -78,7 +78,7 @@ def main():
         open(os.path.join(dst, 'patch.diff'), 'w').write(patch_text if patch_text.endswith('\n') else patch_text + '\n')
         open(os.path.join(dst, 'demo.py'), 'w').write(open(demo).read().replace(wtname, '<worktree>'))
         for fn in os.listdir(src):
-            if fn.endswith('.py') and not re.match(r'(demo|equiv)_[A-Z]\.py$', fn) and not fn.startswith('equiv'):
+            if fn.endswith('.py') and not re.match(r'(demo|equiv)_[A-Z]\.py$', fn):
                 open(os.path.join(dst, fn), 'w').write(open(os.path.join(src, fn)).read().replace(wtname, '<worktree>'))
         if os.path.exists(notes):
             shutil.copy(notes, os.path.join(dst, 'agent_notes.md'))
